@@ -4,6 +4,7 @@ import os
 import re
 
 import dsl
+import dsltok
 import tlc
 from common import Infra, Scratch, build_cli, build_driver, pmap, run, write
 from evidence import Report
@@ -92,10 +93,29 @@ def frontend_conformance(rep, tier):
                      "metas": [sites[("meta", j)] for j in range(1, len(p.get("metas") or []) + 1)]}
             events.append({"ev": "model", "id": p["id"], "text": text, "lines": lines,
                            "prog": {"opts": p["opts"], "metas": p.get("metas") or [], "pkts": p["pkts"]}})
-        r = run([drv, "models"], input="\n".join(paths) + "\n", timeout=600)
+        # "well-formed" does not depend on the layout: the same programs written on as few lines as possible (several
+        # declarations - a key field and its match field, two packets - share a line) must be accepted as well
+        fpaths = []
+        for n, e in enumerate(events):
+            path = os.path.join(tmp, "p%d_few.dsl" % n)
+            with open(path, "w") as fh:
+                fh.write(dsltok.relayout(e["text"], "fewlines", 1))
+            fpaths.append(path)
+        r = run([drv, "models"], input="\n".join(paths + fpaths) + "\n", timeout=900)
     outs = [json.loads(l) for l in r.stdout.splitlines() if l.startswith("{")]
-    if r.returncode != 0 or len(outs) != len(events):
-        raise Infra("overlay driver 'models' failed: rc=%s, %d of %d answers\n%s" % (r.returncode, len(outs), len(events), r.stderr[-1500:]))
+    if r.returncode != 0 or len(outs) != 2 * len(events):
+        raise Infra("overlay driver 'models' failed: rc=%s, %d of %d answers\n%s" % (r.returncode, len(outs), 2 * len(events), r.stderr[-1500:]))
+    for e, o in zip(events, outs[len(events):]):
+        sig = "frontend|%s~fewlines" % e["id"]
+        if o.get("panic") or o.get("err") or not o.get("ok") or "model" not in o:
+            rep.case(sig + "|rejected", False,
+                     "well-formed program %s written on few lines is not accepted by the front end: diagnostics %s panic %s err %s" % (
+                         e["id"], [(d["line"], d["msg"][:70]) for d in (o.get("diags") or [])][:3], (o.get("panic") or "")[:100], o.get("err")),
+                     {"dsl": dsltok.relayout(e["text"], "fewlines", 1), "observed": {k: o.get(k) for k in ("ok", "diags", "panic", "err")},
+                      "how": "fin-protoc compile -f p.dsl -g out (or the overlay driver: verifdrv models < paths)"})
+        else:
+            rep.case(sig + "|accepted", True)
+    outs = outs[:len(events)]
     trace = []
     for e, o in zip(events, outs):
         sig = "frontend|%s" % e["id"]
